@@ -57,12 +57,17 @@ def _run(tier, seed, replay=None):
     v = vlib.Verdict(PID, tier, seed)
     cfg = "WorkUnit_quick.cfg" if tier == "quick" else "WorkUnit_full.cfg"   # sessions x operations: 2+1 / 2+2 (and 2 output chunks)
     r = vlib.tlc_must_pass("WorkUnit", cfg, wd, timeout=2400, heap="10g")
-    r2 = vlib.tlc_must_pass("WorkUnit", "WorkUnit_ids.cfg", wd, timeout=1200)
-    variants = {"CancelKeepsSucceeded=FALSE (the repaired defect)":
-                variant(wd, "wu_cancel_asis.cfg", [("CancelKeepsSucceeded = TRUE", "CancelKeepsSucceeded = FALSE")], "SucceededIsFinal"),
-                "UnregFirst=TRUE (index entry deleted before the files: a concurrent look-up re-registers the unit)":
-                variant(wd, "wu_unregfirst.cfg", [("UnregFirst = FALSE", "UnregFirst = TRUE")], "ReleaseRemoves")}
-    wit = vlib.witnesses("WorkUnit", "WorkUnit_quick.cfg", ["W_NoCanceled", "W_NoRelease"] if tier == "quick" else ["W_NoSucceeded", "W_NoCanceled", "W_NoRelease", "W_NoKilled"], wd)
+    # quick keeps the number of TLC launches small (a JVM start costs tens of seconds on the loaded machine): the two-id
+    # configuration, the must-fail variants and the witnesses run in the thorough tier
+    variants, wit = {}, []
+    r2 = None
+    if tier != "quick":
+        r2 = vlib.tlc_must_pass("WorkUnit", "WorkUnit_ids.cfg", wd, timeout=1200)
+        variants = {"CancelKeepsSucceeded=FALSE (the repaired defect)":
+                    variant(wd, "wu_cancel_asis.cfg", [("CancelKeepsSucceeded = TRUE", "CancelKeepsSucceeded = FALSE")], "SucceededIsFinal"),
+                    "UnregFirst=TRUE (index entry deleted before the files: a concurrent look-up re-registers the unit)":
+                    variant(wd, "wu_unregfirst.cfg", [("UnregFirst = FALSE", "UnregFirst = TRUE")], "ReleaseRemoves")}
+        wit = vlib.witnesses("WorkUnit", "WorkUnit_quick.cfg", ["W_NoSucceeded", "W_NoCanceled", "W_NoRelease", "W_NoKilled"], wd)
 
     # remote-work protocol (RemoteUnit.tla): exhaustive parts in thorough only
     remote = {}
@@ -97,8 +102,9 @@ def _run(tier, seed, replay=None):
             seed //= 100
     hist, ops = (3, 14) if tier == "quick" else (16, 30)
     res = vlib.harness_json(vd, ["c13", "-bin", rec, "-dir", os.path.join(wd, "runs"), "-seed", str(seed), "-histories", str(hist), "-ops", str(ops), "-inproc-bin", inproc,
-                                  "-rsched", "cut-during-monitoring,cancel-while-disconnected,release-while-disconnected,release-with-executor-gone" if tier == "quick" else
-                                  "cut-during-monitoring,cancel-while-disconnected,cancel-then-restart-submitter,release-while-disconnected,release-with-executor-gone"],
+                                  "-rsched", "cut-during-monitoring,restart-submitter-during-monitoring,release-with-executor-gone,cancel-while-disconnected,release-while-disconnected" if tier == "quick" else
+                                  "cut-during-monitoring,restart-submitter-during-monitoring,cancel-while-disconnected,cancel-then-restart-submitter,release-while-disconnected,release-with-executor-gone",
+                                  "-rwtraces", "3" if tier == "quick" else "0"],
                             wd, timeout=3000, name="vd_c13")
     for viol in res["violations"]:
         v.violation(viol["sig"], viol["what"], viol["replay"])
@@ -145,7 +151,7 @@ def _run(tier, seed, replay=None):
     if c.get("cancel_race_completion_won", 0) == 0:
         v.notes.append("cancel-vs-completion: the completion branch was not taken in %d attempts" % c.get("cancel_race_attempts", 0))
     cov = {
-        "states": r.distinct + r2.distinct, "transitions": r.generated + r2.generated, "traces_validated_against_impl": traces,
+        "states": r.distinct + (r2.distinct if r2 else 0), "transitions": r.generated + (r2.generated if r2 else 0), "traces_validated_against_impl": traces,
         "evaluations": res["evaluations"], "distinct_nontrivial": res["distinct"],
         "rule": "evaluations = client operations answered by the real daemon in the seeded histories + concurrent submits + cancel-race attempts; "
                 "distinct_nontrivial = distinct state paths of a unit's stored record (sequence of old>new state pairs over all its sf_apply events, repeats collapsed) "
@@ -154,7 +160,7 @@ def _run(tier, seed, replay=None):
         "state_paths": ex.get("state_paths"), "counters": c, "trace_validation": tv, "unit_rewrite_trace_validation": ut,
         "remote_protocol": remote, "remote_protocol_trace_validation": rt, "remote_schedules": ex.get("remote_schedules"),
         "tlc": [{"spec": "WorkUnit.tla", "cfg": cfg, "generated": r.generated, "distinct": r.distinct, "depth": r.depth, "wall_s": round(r.wall, 1)},
-                {"spec": "WorkUnit.tla", "cfg": "WorkUnit_ids.cfg", "generated": r2.generated, "distinct": r2.distinct, "depth": r2.depth, "wall_s": round(r2.wall, 1)}],
+                ] + ([{"spec": "WorkUnit.tla", "cfg": "WorkUnit_ids.cfg", "generated": r2.generated, "distinct": r2.distinct, "depth": r2.depth, "wall_s": round(r2.wall, 1)}] if r2 else []),
         "variants_violated": variants, "witnesses": wit, "notes": v.notes,
     }
     return v.finish("model_checking", cov, assumptions=[
